@@ -26,7 +26,10 @@ func (handler *MutableEventHandler[E]) Emit(event *E) {
 // in ascending order.
 func (handler *MutableEventHandler[E]) Subscribe(listener MutableListener[E], priority int) {
 	ml := mutableListener[E]{listener: listener, priority: priority}
-	handler.listeners = append(handler.listeners, ml)
+	// always append into a fresh array: an emission in progress (a listener may subscribe from inside
+	// it) keeps ranging over the array it started with, which the sort below must not permute
+	n := len(handler.listeners)
+	handler.listeners = append(handler.listeners[:n:n], ml)
 	sort.Sort(handler.listeners)
 }
 
